@@ -57,19 +57,22 @@ def check_rot(acc, mr, a, th, ia, ith):
         return
     e = np.abs(R - se3.rexp(w)).max()
     acc.resid("exp3_vs_true", e)
-    if e > TOL:
+    if not (e <= TOL):
         acc.violation("exp3_value", case, e, TOL, q)
     L = mr.MatrixLog3(R)
     w2 = mr.so3ToVec(L)
     port_eq_ref = bool(np.allclose(L, _ref().MatrixLog3(R), rtol=0, atol=1e-12))
     e = np.abs(mr.MatrixExp3(L) - R).max()
     acc.resid("explog3", e if not (0 <= PI - ang_true < 3e-5) else 0.0)
-    if e > TOL or np.abs(L + L.T).max() > 1e-12:
+    if not np.all(np.isfinite(L)):
+        acc.violation("log3_not_finite", case, L, None, q)
+        return
+    if not (e <= TOL) or not (np.abs(L + L.T).max() <= 1e-12):
         acc.violation("explog3", case, e, TOL, q, {"port_equals_reference": port_eq_ref})
     if th < PI:
         e = np.abs(w2 - w).max()
         acc.resid("logexp3", e if not (0 <= PI - ang_true < 3e-5) else 0.0)
-        if e > TOL:
+        if not (e <= TOL):
             acc.violation("logexp3", case, e, TOL, q, {"port_equals_reference": port_eq_ref})
     if 0 <= PI - ang_true < 3e-5 and not port_eq_ref:
         acc.violation("band_port_vs_reference", case, float(np.abs(L - _ref().MatrixLog3(R)).max()), 1e-12, q)
@@ -92,20 +95,24 @@ def check_twist(acc, mr, a, th, v):
         return
     e = np.abs(T - se3.exp6(V)).max() / sv
     acc.resid("exp6_vs_true", e)
-    if e > TOL:
+    if not (e <= TOL):
         acc.violation("exp6_value", case, e, TOL, q)
     Lg = mr.MatrixLog6(T)
+    if not np.all(np.isfinite(Lg)):
+        acc.violation("log6_not_finite", case, Lg, None, q)
+        check_group_single(acc, mr, T, case)
+        return
     Rr = np.ascontiguousarray(T[:3, :3])
     port_eq_ref = bool(np.allclose(mr.MatrixLog3(Rr), _ref().MatrixLog3(Rr), rtol=0, atol=1e-12))
     inband = 0 <= PI - ang_true < 3e-5
     e = np.abs(mr.MatrixExp6(Lg) - T).max() / scale(T[:3, 3])
     acc.resid("explog6", 0.0 if inband else e)
-    if e > TOL or not np.array_equal(Lg[3], np.zeros(4)):
+    if not (e <= TOL) or not np.array_equal(Lg[3], np.zeros(4)):
         acc.violation("explog6", case, e, TOL, q, {"port_equals_reference": port_eq_ref})
     if th < PI:
         e = np.abs(mr.se3ToVec(Lg) - V).max() / sv
         acc.resid("logexp6", 0.0 if inband else e)
-        if e > TOL * (1.0 if PI - th > 1e-2 else 1.0):
+        if not (e <= TOL):
             acc.violation("logexp6", case, e, TOL, q, {"port_equals_reference": port_eq_ref})
     # group structure on this T
     check_group_single(acc, mr, T, case)
@@ -120,34 +127,34 @@ def check_group_single(acc, mr, T, case):
     Ti = mr.TransInv(Tc)
     e = max(np.abs(Ti @ T - np.eye(4)).max(), np.abs(T @ Ti - np.eye(4)).max()) / sp
     acc.resid("inv", e)
-    if e > max(REL, 0) * 10 and e > 1e-9:
+    if not (e <= 1e-9):
         acc.violation("inverse", case, e, 1e-9)
     e = np.abs(Ti - se3.tinv(T)).max() / sp
-    if e > 1e-9:
+    if not (e <= 1e-9):
         acc.violation("inverse_value", case, e, 1e-9)
     A = mr.Adjoint(Tc)
     e = np.abs(A - se3.adj(T)).max() / sp
     acc.resid("adjoint_value", e)
-    if e > 1e-9:
+    if not (e <= 1e-9):
         acc.violation("adjoint_value", case, e, 1e-9)
     Ai = mr.Adjoint(np.ascontiguousarray(Ti))
     e = np.abs(Ai @ A - np.eye(6)).max() / (sp * sp)
     acc.resid("adjoint_inverse", e)
-    if e > 1e-9:
+    if not (e <= 1e-9):
         acc.violation("adjoint_inverse", case, e, 1e-9)
     for k, Vb in enumerate(BASIS6):
         lhs = T @ mr.VecTose3(Vb) @ Ti
         rhs = mr.VecTose3(A @ Vb)
         e = np.abs(lhs - rhs).max() / (sp * scale(Vb))
         acc.resid("conjugation", e)
-        if e > 1e-9:
+        if not (e <= 1e-9):
             acc.violation("conjugation", dict(case, basis=k), e, 1e-9)
         adV = mr.ad(Vb)
         want = np.zeros((6, 6))
         want[:3, :3] = se3.skew(Vb[:3])
         want[3:, 3:] = se3.skew(Vb[:3])
         want[3:, :3] = se3.skew(Vb[3:])
-        if np.abs(adV - want).max() > 1e-12:
+        if not (np.abs(adV - want).max() <= 1e-12):
             acc.violation("ad_value", dict(case, basis=k), adV)
 
 
@@ -209,12 +216,12 @@ def work_pairs(p):
         s = scale(T1[:3, 3]) * scale(T2[:3, 3])
         e = np.abs(A12 - Ad[i] @ Ad[j]).max() / s
         acc.resid("adjoint_homomorphism", e)
-        if e > 1e-9:
+        if not (e <= 1e-9):
             acc.violation("adjoint_homomorphism", {"part": "pair", "i": i, "j": j, "w1": P[i][0], "p1": P[i][1], "w2": P[j][0], "p2": P[j][1]}, e, 1e-9)
         ti = mr.TransInv(np.ascontiguousarray(T1 @ T2))
         e2 = np.abs(ti - mr.TransInv(np.ascontiguousarray(T2)) @ mr.TransInv(np.ascontiguousarray(T1))).max() / s
         acc.resid("inverse_antihomomorphism", e2)
-        if e2 > 1e-9:
+        if not (e2 <= 1e-9):
             acc.violation("inverse_antihomomorphism", {"part": "pair", "i": i, "j": j, "w1": P[i][0], "p1": P[i][1], "w2": P[j][0], "p2": P[j][1]}, e2, 1e-9)
         acc.evals += 1
         if i != j:
@@ -236,6 +243,10 @@ def work_se3(p):
         case = {"part": "se3", "axis": a, "angle": th, "p": pos}
         try:
             Lg = mr.MatrixLog6(np.ascontiguousarray(T))
+            if not np.all(np.isfinite(Lg)):
+                acc.violation("log6_not_finite", case, Lg, None, q)
+                acc.case(("s", tuple(np.round(a * th, 13)), tuple(pos)))
+                continue
             T2 = mr.MatrixExp6(Lg)
             Rr = np.ascontiguousarray(T[:3, :3])
             port_eq_ref = bool(np.allclose(mr.MatrixLog3(Rr), _ref().MatrixLog3(Rr), rtol=0, atol=1e-12))
@@ -245,7 +256,7 @@ def work_se3(p):
         e = np.abs(T2 - T).max() / scale(pos)
         inband = 0 <= PI - ang_true < 3e-5
         acc.resid("explog6", 0.0 if inband else e)
-        if e > TOL:
+        if not (e <= TOL):
             acc.violation("explog6", case, e, TOL, q, {"port_equals_reference": port_eq_ref})
         acc.case(("s", tuple(np.round(a * th, 13)), tuple(pos)), nontrivial=(ang_true > 1e-6 and np.any(pos != 0)))
     return acc.result()
@@ -279,17 +290,17 @@ def replay(rec):
         elif c["part"] == "se3":
             T = se3.T_from(np.array(c["axis"]) * c["angle"], c["p"])
             T2 = mr.MatrixExp6(mr.MatrixLog6(np.ascontiguousarray(T)))
-            if np.abs(T2 - T).max() / scale(c["p"]) > TOL:
+            if not (np.abs(T2 - T).max() / scale(c["p"]) <= TOL):
                 acc.violation("explog6", c)
         else:
             T1 = se3.T_from(c["w1"], c["p1"])
             T2 = se3.T_from(c["w2"], c["p2"])
             s = scale(T1[:3, 3]) * scale(T2[:3, 3])
             A12 = mr.Adjoint(np.ascontiguousarray(T1 @ T2))
-            if np.abs(A12 - mr.Adjoint(np.ascontiguousarray(T1)) @ mr.Adjoint(np.ascontiguousarray(T2))).max() / s > 1e-9:
+            if not (np.abs(A12 - mr.Adjoint(np.ascontiguousarray(T1)) @ mr.Adjoint(np.ascontiguousarray(T2))).max() / s <= 1e-9):
                 acc.violation("adjoint_homomorphism", c)
             ti = mr.TransInv(np.ascontiguousarray(T1 @ T2))
-            if np.abs(ti - mr.TransInv(np.ascontiguousarray(T2)) @ mr.TransInv(np.ascontiguousarray(T1))).max() / s > 1e-9:
+            if not (np.abs(ti - mr.TransInv(np.ascontiguousarray(T2)) @ mr.TransInv(np.ascontiguousarray(T1))).max() / s <= 1e-9):
                 acc.violation("inverse_antihomomorphism", c)
     except Exception as e:
         acc.violation("raised", c, repr(e))
